@@ -31,7 +31,9 @@ def mkval(tag):
     if tag == "G":
         return impl.PVLGroup([("x", 1), ("x", 2)])
     if tag == "O":
-        return impl.PVLObject([("x", 1), ("g", impl.PVLGroup([("y", 1)]))])
+        return impl.PVLObject([("x", 1), ("g", impl.PVLGroup([("y", 1)])), ("e", impl.PVLGroup())])
+    if tag == "E":
+        return impl.PVLGroup()          # empty (falsy) nested container
     return tag
 
 
@@ -80,22 +82,30 @@ MUTS = [["append", "a", 5], ["append", "c", 5], ["setitem", "a", 5], ["setitem",
 NESTED = [["n_append"], ["n_setitem"], ["n_pop"], ["n_clear"], ["n_insert"]]
 
 
+def nested_containers(o, depth=0):
+    for k, v in list(o):
+        if isinstance(v, impl.OrderedMultiDict):
+            yield v
+            if depth < 3:
+                yield from nested_containers(v, depth + 1)
+
+
 def mutate(o, mut):
     if mut[0].startswith("n_"):
-        # first nested container, if any
-        for k, v in list(o):
-            if isinstance(v, impl.OrderedMultiDict):
-                if mut[0] == "n_append": v.append("y", 9)
-                elif mut[0] == "n_setitem": v["x"] = 9
-                elif mut[0] == "n_pop":
-                    try:
-                        v.pop()
-                    except LookupError:
-                        pass
-                elif mut[0] == "n_clear": v.clear()
-                elif mut[0] == "n_insert": v.insert(0, "w", 9)
-                return True
-        return False
+        # every nested container, at every depth
+        hit = False
+        for v in list(nested_containers(o)):
+            hit = True
+            if mut[0] == "n_append": v.append("y", 9)
+            elif mut[0] == "n_setitem": v["x"] = 9
+            elif mut[0] == "n_pop":
+                try:
+                    v.pop()
+                except LookupError:
+                    pass
+            elif mut[0] == "n_clear": v.clear()
+            elif mut[0] == "n_insert": v.insert(0, "w", 9)
+        return hit
     C.apply(o, mut, KEYS, [5, 6])
     return True
 
@@ -195,7 +205,7 @@ def states(n_max, vals):
 def shard(spec):
     cls, pairs, mut_len, nested_len = spec
     acc = Acc()
-    has_nested = any(v in ("G", "O") for _, v in pairs)
+    has_nested = any(v in ("G", "O", "E") for _, v in pairs)
     mutseqs = [[]]
     for L in range(1, mut_len + 1):
         mutseqs += [list(s) for s in itertools.product(MUTS, repeat=L)]
@@ -233,16 +243,16 @@ def shard(spec):
 
 def run(ctx):
     if ctx.quick:
-        n_max, vals, mut_len, nested_len = 2, [1, "G"], 1, 1
+        n_max, vals, mut_len, nested_len = 2, [1, "G", "E"], 1, 1
     else:
-        n_max, vals, mut_len, nested_len = 3, [1, "G", "O"], 2, 2
+        n_max, vals, mut_len, nested_len = 3, [0, "G", "O", "E"], 2, 2
     specs = []
     for cls in C.CLASSES:
         for pairs in states(n_max, vals):
             specs.append((cls, pairs, mut_len, nested_len))
         if ctx.quick:
             # a few three-pair states with the second mutation step
-            for pairs in ([["a", 1], ["a", "G"], ["b", 1]], [["a", "G"], ["b", "G"], ["a", 1]]):
+            for pairs in ([["a", 1], ["a", "G"], ["b", 1]], [["a", "G"], ["b", "E"], ["a", 0]], [["a", "O"]]):
                 specs.append((cls, pairs, 2, 1))
     acc = ctx.pmap(shard, specs)
     cov = {
